@@ -387,7 +387,7 @@ func emitsOf(fn *ssa.Function) map[ssa.Instruction]string {
 }
 
 func checkC16(c *Check) {
-	c.Explanation = "Decided for every event type, parser case and keeper path: (R1) emit/parse codec tables agree per module — every event type's action has a ParseEvent case that constructs that same type, reads exactly the attribute keys the emitter writes, with the same value class per key (uint64 / big integer / hex / address / string), module and event-type constants agree; (R2) in every keeper function, on every nil-error path, a record is persisted as new / with a given state iff exactly the paired event type is emitted (record kind + state -> event table from the property), with the event id taken from the persisted object; events of a lifecycle type are emitted nowhere else; (R4) KVStore writes happen only in keeper packages; (R5) the provider's event dispatcher consults all four module parsers; (R6) no stale record is written after a call that can fire escrow hooks (source of duplicate events)."
+	c.Explanation = "Decided for every event type, parser case and keeper path: (R1) emit/parse codec tables agree per module — every event type's action has a ParseEvent case that constructs that same type, reads exactly the attribute keys the emitter writes, with the same value class per key (uint64 / big integer / hex / address / string), module and event-type constants agree; (R2) in every keeper function, on every nil-error path, a record is persisted as new / with a given state iff exactly the paired event type is emitted (record kind + state -> event table from the property), with the event id taken from the persisted object; events of a lifecycle type are emitted nowhere else; (R4) KVStore writes happen only in keeper packages; (R5) the provider's event dispatcher consults all four module parsers; (R6) no stale record is written after a call that can fire escrow hooks (source of duplicate events); (R7) for every state assignment in an event-emitting keeper function the prior states admitted by its own guards and those of every call site exclude the assigned state (no closed/paused/started event for a record already in that state; one frozen cross-record exception)."
 	c.NotDecided = "numeric round trip of ids/prices through the string codec beyond the value class; that a given transaction reaches the emitting function"
 	l := c.L
 
@@ -643,6 +643,35 @@ func checkC16(c *Check) {
 
 	// ---- R6 stale records across hook-firing calls (duplicate / spurious events)
 	c.staleAcrossHooksRule("R6", kinds)
+
+	// ---- R7 no closed/paused/started event for a record already in that state
+	nself := 0
+	for _, sa := range sas {
+		if isConstruction(sa) || sa.vals == nil || len(emitsOf(sa.fn)) == 0 {
+			continue
+		}
+		nself++
+		self := ""
+		pre := sa.pre
+		if fnName(sa.fn) == "x/deployment/keeper.(Keeper).OnPauseGroup" {
+			pre = c.refineOnBidClosedQ(kinds, sa, true) // see C04-R1: lease active => group open
+		}
+		for to := range sa.vals {
+			// frozen exception: a group is set to insufficient_funds only by the account-closed hook, which acts only on
+			// an active deployment and closes it in the same call; the hook can therefore not meet a group that it
+			// already moved to insufficient_funds (cross-record invariant, not derivable from the guards on the group)
+			if fnName(sa.fn) == "x/deployment/keeper.(Keeper).OnCloseGroup" && sa.rk.states[to] == "GroupInsufficientFunds" {
+				continue
+			}
+			if pre[to] {
+				self += sa.rk.states[to] + " "
+			}
+		}
+		c.Ob("R7", fnName(sa.fn)+": "+sa.rk.name+" -> "+sa.rk.setString(sa.vals)+" (with its event) never applies to a record already in that state", sa.st.Pos(), self == "", "guards admit a record that is already "+self+": the event is emitted again although nothing changed (admitted prior states "+sa.rk.setString(pre)+" via "+strings.Join(sa.sites, " ; ")+")")
+	}
+	if nself < 7 {
+		c.Fail("C16-R7 lost instances: %d event-emitting transitions", nself)
+	}
 }
 
 func kindsOf(es []effect) string {
